@@ -44,12 +44,24 @@ def _argstr(a):
     if a[0] == 'int':
         return str(a[1])
     if a[0] == 'tmpl':
-        return 'tmpl[' + ''.join(('?' * p) if isinstance(p, int) else bytes(p).decode('latin1') for p in a[2]) + ']'
+        return 'tmpl[' + _tmpl_str(a[2]) + ']'
     if a[0] == 'cbytes':
         return repr(bytes(a[1]))
     if a[0] == 'bool':
         return 'true' if a[1] else 'false'
     return a[0]
+
+
+def _tmpl_str(parts):
+    out = ''
+    for p in parts:
+        if isinstance(p, int):
+            out += '?' * p
+        elif isinstance(p, tuple):
+            out += {'digit': 'D', 'digit19': 'N', 'hex': 'H', 'ws': '_', 'sign': 'S'}[p[1]] * p[0]
+        else:
+            out += bytes(p).decode('latin1')
+    return out
 
 
 def _maskstr(m):
@@ -69,6 +81,8 @@ def byte_mask(*vals):
 
 
 FULLMASK = (1 << 256) - 1
+CLASSES = {'digit': byte_mask(*'0123456789'), 'digit19': byte_mask(*'123456789'), 'hex': byte_mask(*'0123456789abcdefABCDEF'),
+           'ws': byte_mask(' ', '\t', '\r', '\n'), 'sign': byte_mask('+', '-')}
 SPLIT_CLASSES = [byte_mask('['), byte_mask('{'), byte_mask(' ', '\t', '\r', '\n')]
 SPLIT_CLASSES.append(FULLMASK & ~(SPLIT_CLASSES[0] | SPLIT_CLASSES[1] | SPLIT_CLASSES[2]))
 
@@ -101,6 +115,14 @@ def _make_args(job, cellsout):
                     if isinstance(part, int):
                         for _ in range(part):
                             cells.append(ex.store.newvar('%s_%d' % (a[1], len(cells)), 8, 'byte'))
+                    elif isinstance(part, tuple):
+                        # (count, class): symbolic bytes restricted to a value set
+                        k, cls = part
+                        m = CLASSES[cls]
+                        for _ in range(k):
+                            t = ex.store.newvar('%s_%d' % (a[1], len(cells)), 8, 'byte')
+                            cells.append(t)
+                            st.pc = ex.mdd.and_byte(st.pc, ex.store.var_of(t).order, m)
                     else:
                         cells.extend(part)
                 cells = tuple(cells)
@@ -154,6 +176,8 @@ def _worker(job):
                 setattr(ex, k[3:], v)
         if job.opts.get('float_contract'):
             ses.use_float_contract()
+        if job.opts.get('bits_intrinsics'):
+            ses.use_bits_intrinsics()
         if job.opts.get('no_float_overflow'):
             ses.no_float_overflow()
         cellsout = []
@@ -216,6 +240,7 @@ def _worker(job):
         res['solver'] = sv
         res['reach'] = dict(ses.reach)
         res['asserts'] = {k: list(v) for k, v in ses.asserts.items()}
+        res['obligations'] = getattr(ses, 'obligations', 0)
         res['events'] = sorted('%s: %s' % k for k in ex.events)
         res['funcs'] = sorted(getattr(ex, 'entered', ()))
     except (TimeoutError, MemoryError) as e:
